@@ -103,7 +103,7 @@ Proof.
   - reflexivity.
   - discriminate.
   - reflexivity.
-  - destruct s; [discriminate|reflexivity].
+  - reflexivity.
   - apply andb_true_iff in H. destruct H as [_ H]. exact H.
   - auto.
   - auto.
